@@ -2,7 +2,9 @@
 package util
 
 import (
+	"bytes"
 	"errors"
+	"io"
 	"strconv"
 	"strings"
 
@@ -116,4 +118,29 @@ func VerifT00_FindsBug() {
 		_ = b[0]
 	}
 	sym.Reach("end")
+}
+
+type verifEmbW struct {
+	io.Writer
+	buf [1]byte
+}
+
+func (w *verifEmbW) WriteByte(c byte) error {
+	w.buf[0] = c
+	_, err := w.Write(w.buf[:])
+	return err
+}
+
+// VerifT00_EmbeddedInterfaceWriter: promoted method through an embedded interface, over a bytes.Buffer.
+//
+//verif:reach done
+func VerifT00_EmbeddedInterfaceWriter() {
+	var b bytes.Buffer
+	w := &verifEmbW{Writer: &b}
+	c := sym.Byte("c")
+	w.WriteByte(c)
+	w.WriteByte('x')
+	out := b.Bytes()
+	sym.Assert(len(out) == 2 && out[0] == c && out[1] == 'x', "bytes written through the embedded writer")
+	sym.Reach("done")
 }
